@@ -176,6 +176,8 @@ def classify(kind, step, w, spec):
             return K_REMAIN
     if kind == "inverse-law:reset-after-set" and w.get("diff"):
         in_index = w["diff"].startswith("$.index")
+        if w["diff"].startswith("$.index.indexes: len") and multi:
+            return K_STALE
         if attr == "coerce" and multi:
             return K_MICOLS
         if attr in P.LOST_BY_REBUILD:
@@ -183,6 +185,9 @@ def classify(kind, step, w, spec):
     if kind == "index-levels-not-as-requested" and m == "reset_index" \
             and len(w.get("got", [])) >= 3 and w.get("got") == w.get("old_levels"):
         return K_STALE
+    if kind == "mirror-rejected" and m in ("update_column", "update_columns") \
+            and w.get("lost_drop_invalid_rows"):
+        return K_PROPS
     if kind == "mirror-rejected" and m == "reset_index" and not step.get("drop") \
             and spec.get("ordered") and "COLUMN_NOT_ORDERED" in json.dumps(w.get("detail")):
         return K_ORDER
@@ -265,8 +270,12 @@ class Case:
         if out.kind != "ok":
             detail = ([[e.reason, str(e.column), str(e.check)] for e in out.errors]
                       if out.errors else repr(out.exc)[:300])
+            ca, cb = cols_of(fp_before), cols_of(fp2)
+            lost = sorted(k for k in ca if k in cb and ca[k].get("drop_invalid_rows")
+                          and not cb[k].get("drop_invalid_rows"))
             self.viol("mirror-rejected", step,
                       {"outcome": out.kind, "detail": detail,
+                       "lost_drop_invalid_rows": lost,
                        "frame_columns": [str(c) for c in st.frame.columns],
                        "schema_columns": [str(k) for k in S2.columns]},
                       detail=detail)
@@ -487,9 +496,13 @@ class Case:
         except Exception as e:
             run.count(f"REJECT:probe_not_buildable:{type(e).__name__}")
             return
+        if needs_lazy(S) or needs_lazy(S2):
+            run.count("undecided:REJECT-drop_invalid_rows-in-play")
+            return
         before = validate(S, Db)
         if before.kind not in ("SchemaError", "SchemaErrors") or not any(
-                str(e.column) == str(k) for e in before.errors):
+                str(e.column) == str(k) and e.reason == "DATAFRAME_CHECK"
+                for e in before.errors):
             run.count("undecided:REJECT-original-did-not-reject-on-that-column")
             return
         tmp = P.State.__new__(P.State)
